@@ -11,6 +11,11 @@ import os
 
 class Clause:
     def __init__(self, text, props=None, label=None):
+        # "internal: <expr>" = a clause about the function's own locals: an
+        # obligation of its body, not a fact callers may use
+        self.internal = text.startswith("internal:")
+        if self.internal:
+            text = text[len("internal:"):].strip()
         self.text = text
         self.props = props
         self.label = label
